@@ -2,6 +2,7 @@
 import io
 import json
 import re
+import signal
 
 from props.common import FragStream, enc_str, enc_list, Reader, environ
 from props import C07 as F
@@ -31,6 +32,7 @@ ASSUMPTIONS = ['CONTENT_LENGTH, when present and non-empty, is accepted by int()
                'chunked framing is exercised with full reads only (short reads: C05/F5)',
                'DefaultConfig.errors_map as generated into coq/gen/Gen.v (RequestError, BodySizeError, BodyParsingError)']
 
+HANG_LIMIT = 4          # seconds per request (a request of this harness takes milliseconds); check.py's own alarm is 20 s
 ACCESS = ['forms', 'files', 'POST', 'json', 'body']
 CT_MP = 'multipart/form-data; boundary=XyZ'
 
@@ -147,6 +149,12 @@ def corpus():
     out.append(case('text/plain', b'x', cl_raw='abc', access='body'))
     out.append(case(CT_MP, wire, cl_raw='abc', te='chunked', mem=64))            # parsed even when chunked
     out.append(case('text/plain', b'{}', cl_raw='abc', access='json'))             # body never read: 200
+    # ---- header lines that make a backtracking option regex explode (the "never hangs" clause): long runs of
+    # backslashes / quotes / semicolons inside a quoted parameter that is not properly closed
+    out.append(case(CT_MP, part(CD + b'name="' + b'\\' * 40, b'v') + END))                 # no closing quote
+    out.append(case(CT_MP, part(CD + b'name="' + b'\\' * 64 + b'"x', b'v') + END))           # closing quote, then junk
+    out.append(case(CT_MP, part(CD + b'name="a"; filename="' + b'\\"' * 30 + b'\\', b'v') + END, access='files'))
+    out.append(case(CT_MP, part(CD + b'name=' + b'"' * 90 + b';' * 60 + b'=' * 50, b'v') + END))
     return out
 
 
@@ -203,10 +211,31 @@ CT_MPS = [CT_MP] * 10 + ['multipart/form-data', 'multipart/form-data; boundary=X
 CT_OTHER = ['application/x-www-form-urlencoded', '', 'text/plain', 'multipart', 'multipart/', 'application/jso']
 
 
+RUN_ATOMS = [b'\\', b'\\', b'\\"', b'"', b';', b'=', b'\\\\', b'a', b' ', b'";', b'\\;']
+
+
+def nasty_header(rng):
+    """a Content-Disposition line whose quoted parameter holds a long run (30..200) of backslashes / quotes /
+    semicolons and is not properly closed: no closing quote, or a closing quote followed by something else"""
+    ln = rng.choice([30, 40, 64, 70, 100, 200])
+    kind = rng.random()
+    if kind < 0.5:
+        run = rng.choice([b'\\', b'\\', b'\\"', b'\\\\']) * ln
+    else:
+        run = b''.join(rng.choice(RUN_ATOMS) for _ in range(ln))
+    tail = rng.choice([b'', b'"x', b'" x', b'"=', b'\\', b'"', b'";'])
+    param = rng.choice([b'name="', b'name="a"; filename="', b'filename="'])
+    return CD + param + run + tail
+
+
 def gen(rng, n):
     for _ in range(n):
         r = rng.random()
         chunked_ok = True
+        if r < 0.006:
+            body = part(nasty_header(rng), b'v') + (END if rng.random() < 0.8 else b'')
+            yield case(CT_MP, body, mem=rng.choice([102400, 64, 17]), access=rng.choice(['forms', 'files', 'POST']))
+            continue
         if r < 0.55:
             body = good_multipart(rng)
             if rng.random() < 0.85:
@@ -313,6 +342,7 @@ def run_impl(case):
                 seen['value'] = ['url']
         return 'ok'
 
+    signal.alarm(HANG_LIMIT)      # replaces check.py's 20 s alarm for this case: a hang is reported as {'hang': True}
     st = FragStream(case['data'], case['sched'])
     env = environ('POST', '/', **{'wsgi.input': st, 'CONTENT_TYPE': ''.join(chr(c) for c in case['ctype'])})
     if case['cl_raw'] is not None:
